@@ -82,6 +82,7 @@ class FakeAMQP:
         self._timer = None
         self.deliveries: list = []  # (label, consumer_tag, queue, message_id, t)
         self.dead_lettered: list = []  # (queue, message_id, reason, t)
+        self.acked_ids: list = []
         self.keep_log = True
 
     def now(self):
@@ -239,7 +240,7 @@ class Chan:
             srv = self.conn.srv
             q = srv.q.get(qname)
             if how == "ack":
-                pass
+                srv.acked_ids.append(m.props.message_id)
             elif requeue:
                 m.redelivered = True
                 if q is not None:
